@@ -94,7 +94,7 @@ func (p *Prog) contractsFor(prop string) []string {
 func (c *Contract) clauseHasProp(prop string) bool {
 	chk := func(cs []Clause) bool {
 		for _, x := range cs {
-			if hasProp(x.Props, prop) {
+			if hasProp(x.Props, prop) && !x.Trusted {
 				return true
 			}
 		}
@@ -236,8 +236,12 @@ func runCheck(p *Prog, prop, tier string, timeout, workers int, verbose bool) in
 			exit = 1
 			continue
 		}
-		if o.Kind == "order.covered" {
-			rp := writeReplay(prop, o, "a `for ... range` loop over a map has no order-independence obligation: its function carries no C13 contract and the loop is not declared order-free")
+		if o.Solver == "structural" {
+			why := o.Src
+			if o.Kind == "order.covered" {
+				why = "a `for ... range` loop over a map has no discharged order-independence obligation: its function carries no C13 contract, the obligation is undecided, or the loop is not declared order-free"
+			}
+			rp := writeReplay(prop, o, why)
 			fmt.Printf("VIOLATION property=%s replay=%s no-failing-input-found\n", prop, rp)
 			out.Violations = append(out.Violations, o.Name)
 			exit = 1
